@@ -110,6 +110,12 @@ def base_inputs(ctx, soup_n, trunc_n=0, lf_n=0, mb_n=0, case_n=0, corpus_trunc=0
         else:
             ctx.add_cases("common:" + fam, getattr(gen, fam)(rng, cn)[-cn:] if fam == "err_family" else getattr(gen, fam)(rng, cn // 2 if fam == "dl_family" else cn))
     ctx.add_cases("common:oc_family", rng.sample(gen.oc_family(rng, 2 * cn, exh_small=2), cn))
+    # white space other than blank/tab/LF where the input has blanks (ASCII fast paths, is_ascii_whitespace)
+    uw = []
+    for s_ in rng.sample(pool, min(len(pool), cn)):
+        if " " in s_:
+            uw.append("".join(rng.choice(UNI_WS) if ch == " " and rng.random() < 0.5 else ch for ch in s_))
+    ctx.add_cases("common:unicode_ws", uw)
     if not mb_n:
         ctx.add_cases("common:mb", [gen.multibyte_inject(s, rng) for s in rng.sample(pool, min(len(pool), cn))])
     if not lf_n:
